@@ -292,7 +292,7 @@ def main(tier, seed):
         return nhist + i, emptied_disk_history(exe, os.path.join(vlib.scratch(), 'e%d' % i), seed * 100000 + 55000 + i, stats)
     with ThreadPoolExecutor(vlib.NCPU) as ex:
         res = list(ex.map(job, range(nhist))) + list(ex.map(job2, range(nemp))) + list(ex.map(lambda i: (nhist + nemp + i, deleted_hole(exe, os.path.join(vlib.scratch(), 'dh%d' % i), seed * 100000 + 56000 + i, stats)), range(8 if tier == 'quick' else 80)))
-    if True:
+    if tier == 'thorough':      # writes a 4 GiB parity file: kept out of the quick tier
         res.append((10**6, big_deleted_run(exe, os.path.join(vlib.scratch(), 'bigdel'), seed * 100000 + 57000, stats)))
     nbad = 0
     for i, r in res:
@@ -305,7 +305,7 @@ def main(tier, seed):
             chk.violation('C10 static obligation failed: ' + o[0], o[0] + '\n' + o[2], False, 'static')
     chk.evaluations = stats.get('files', 0)
     chk.distinct = stats.get('files', 0)
-    chk.rule = ('every content file left by every command of %d seeded histories (grammar of C06): Lean decode -> Lean re-serialise must be byte-identical; all copies identical; decoded files/links/per-stripe info must equal `list -l` and `status -G -l` of the binary; `test-rewrite` byte-identical (1/2 of steps); the commands of three quarters of the histories run hours to days apart (frozen clock); plus %d emptied-disk histories (a disk loses every file while its extent reaches beyond all live files, partial sync -E -B k saves the state): C06 parity oracle on the reloaded state and fix of a lost file of another disk; every DELETED block must carry a hash the previous content file recorded at ITS position (history oracle), incl. directed runs of deleted blocks with a hole cleared in the middle by a ranged sync, and one run of deleted blocks that covers 4 GiB (16 MiB blocks, sparse files)' % (nhist, nemp))
+    chk.rule = ('every content file left by every command of %d seeded histories (grammar of C06): Lean decode -> Lean re-serialise must be byte-identical; all copies identical; decoded files/links/per-stripe info must equal `list -l` and `status -G -l` of the binary; `test-rewrite` byte-identical (1/2 of steps); the commands of three quarters of the histories run hours to days apart (frozen clock); plus %d emptied-disk histories (a disk loses every file while its extent reaches beyond all live files, partial sync -E -B k saves the state): C06 parity oracle on the reloaded state and fix of a lost file of another disk; every DELETED block must carry a hash the previous content file recorded at ITS position (history oracle), incl. directed runs of deleted blocks with a hole cleared in the middle by a ranged sync, and (thorough tier) one run of deleted blocks that covers 4 GiB (16 MiB blocks, sparse files)' % (nhist, nemp))
     chk.samples = [dict(stats)]
     chk.corr['CODEC'] = dict(stats)
     chk.finish()
